@@ -381,6 +381,21 @@ def should_rerun_table(ctx: Ctx, rule: str) -> None:
     table_rule(ctx, rule, fref, feasible, spec, outcome, max_free=4,
                construct="should_rerun: dry/flat/cloned -> False; foreign worker -> RuntimeError; invalid statuses or max_tries < 0 -> ValueError; "
                "status outside rerun set -> False; stop status seen -> False; max_tries == 1 -> False; else tries left")
+    # which results are counted: tests without stateful objects count all shared results; setup tests the scope-filtered ones,
+    # seen from the worker that started the node or, if none did yet, from the deciding worker; the marker is put back afterwards
+    sc = [i for i in fn.node.body if isinstance(i, ast.If) and any(isinstance(x, ast.Assign) and ast.unparse(x.targets[0]) == "test_statuses" for x in ast.walk(i))]
+    ok_sc = False
+    if len(sc) == 1:
+        i0 = sc[0]
+        stateless = norm.equivalent(norm.formula(i0.test), norm.formula(ast.parse("len(self.get_stateful_objects()) == 0", mode="eval").body))
+        a = [ast.unparse(x) for x in i0.body]
+        b = [ast.unparse(x) for x in i0.orelse]
+        wname = fn.params()[1]
+        ok_sc = (stateless and a == ["test_statuses = [r['status'].lower() for r in self.shared_results]"]
+                 and b == ["old_started_worker = self.started_worker", f"self.started_worker = old_started_worker or {wname}",
+                           "test_statuses = [r['status'].lower() for r in self.shared_filtered_results]", "self.started_worker = old_started_worker"])
+    ctx.record(rule + "sc", "PROV", fref, "counted results: all shared results for tests without stateful objects; for setup tests the scope-filtered results seen from the starting worker (else the deciding one), started_worker restored",
+               ok_sc, {}, "" if ok_sc else "the results a retry decision counts (or the scope they are filtered by) changed, or the temporary started_worker marker is not restored")
     # constants: status universe and defaults
     lists = [n for n in ast.walk(fn.node) if isinstance(n, ast.List) and len(n.elts) >= 6
              and all(isinstance(e, ast.Constant) and isinstance(e.value, str) for e in n.elts)]
